@@ -736,7 +736,7 @@ impl Check for C19 {
         )
     }
     fn rule(&self) -> String {
-        "engine S on a bare OrderQueue: seeded sequences of push (fresh id, or an id removed / popped earlier) / pop / find / remove / len+is_empty / to_vec and rebuilds through from_vec, From<Vec>, Display->FromStr and serde, ending in pops; FIFO-with-removal list model checked operation by operation; hasher seed and shard count varied; non-trivial = a removal of a queued id and a pop with more orders queued in the same run".into()
+        "engine S on a bare OrderQueue: seeded sequences of push (fresh id, or an id removed / popped earlier) / pop / find / remove / len+is_empty / to_vec and rebuilds through from_vec, From<Vec>, Display->FromStr and serde, ending in pops; 1 program in 32 is long (60-460 operations), half of those with a row of 33-1030 pushes each followed by the removal of the same id; a quarter of the programs use UUID / ULID ids in pairs with equal bits; FIFO-with-removal list model checked operation by operation; hasher seed and shard count varied; non-trivial = a removal of a queued id and a pop with more orders queued in the same run".into()
     }
     fn assumptions(&self) -> Vec<String> {
         vec!["an id is pushed only while it is not queued (the runner skips other pushes)".into()]
@@ -1540,7 +1540,7 @@ impl Check for C14 {
         )
     }
     fn rule(&self) -> String {
-        "engine T on a UuidGenerator alone: 2-6 threads x 1-50 next() calls, namespace from {nil, all-ones, DNS, random}, every atomic operation of the generator a scheduling point; oracle: no duplicate, and the set of ids equals the first N ids of a fresh sequential generator with the same namespace (computed with the real generator, no second UUIDv5 implementation); two fresh generators stepped together agree; transaction ids of matches sharing a generator are covered by C03's uniqueness check; non-trivial = at least one pre-emption happened".into()
+        "engine T on a UuidGenerator alone: 2-6 threads x 1-50 next() calls, namespace from {nil, all-ones, DNS, random}, every atomic operation of the generator a scheduling point; oracle: no duplicate, and the set of ids equals the first N ids of a fresh sequential generator with the same namespace (computed with the real generator, no second UUIDv5 implementation); two fresh generators stepped together agree; restart: the generator is serialized after the run, read back and must not re-issue an id, and six generators of the same namespace revived at counters 0, 2^8-3, 2^16-3, 2^32-3, 2^48-3, 2^63-3 issue 36 different ids; transaction ids of matches sharing a generator are covered by C03's uniqueness check; non-trivial = at least one pre-emption happened".into()
     }
     fn assumptions(&self) -> Vec<String> {
         vec!["sequentially consistent memory; uuid crate trusted".into()]
